@@ -36,7 +36,7 @@ def sync_tree(pid):
     dst = os.path.join(BUILD, pid, 'src')
     os.makedirs(dst, exist_ok=True)
     subprocess.run(['rsync', '-a', '--delete', '--exclude', '/target', '--exclude', '.git', '--exclude', '/web', '--exclude', '/docs',
-                    '--exclude', '/datasets', '--exclude', '/python',
+                    '--exclude', '/datasets',
                     REPO + '/', dst + '/'], check=True)
     return dst
 
@@ -124,6 +124,7 @@ def run_verus_unit(res, unit_name, src_root, allow):
         res.functions.append(ff)
         res.clauses += len(f['clauses'])
     info['types'] = u.types
+    info['call_site_audits'] = u.audits
     info['functions'] = [f['fn'] for f in u.functions]
 
 
